@@ -287,7 +287,8 @@ def inlined_census(lower_exe, P, sizes, work, tag):
         if "_mid" not in fn:
             continue
         for l in lines:
-            m = re.match(r"\s*mov\s+[\w.]+, (\w+_sz(\d+)_\d+)\s*$", l)
+            m = re.match(r"\s*mov\s+[\w.]+, (\w+_sz(\d+)_\d+)\s*$", l) or \
+                re.match(r"\s*(?:call|inline)\s+\w+, (\w+_sz(\d+)_\d+),", l)
             if m:
                 res.setdefault(int(m.group(2)), [0, 0, 0])[2] += 1
     for name, header, locs, insns in P.funcs:
